@@ -25,14 +25,22 @@ RULE = ('programs of 3..12 ops over {define class (module class or plain mixin; 
         'Parameter(overriding properties incl. datatype properties min/max/unit), inherit=False, bare value, None, '
         'Command, plain method), instantiate (class, configuration overriding parameter and datatype properties, some '
         'invalid), setProperty on one parameter of one instance, HasControlledBy.register_input on one instance}; '
+        'additionally (implementation + oracle only) parameters r (+ Limit r_limits), lim (LimitsType), tup (TupleOf), arr (ArrayOf), '
+        'st (StructOf with a nested TupleOf), status (StatusType) with $ units in the members, several instances of one class '
+        'with different main units, configuration of member units, setProperty on a MEMBER datatype of one instance; a fixed '
+        'family of 96 such programs runs first; '
         'seeded random plus exhaustive small hierarchies in thorough; after every op the description of every class '
         'and instance is recorded; non-trivial = at least two module classes and one further op; distinct = distinct '
         'op lists')
 ASSUMPTIONS = [
     'every Parameter/Command object is written in exactly one class body (no `p = Base.p` re-use of one object in two class bodies)',
-    'datatypes are FloatRange (integral bounds/values, no value within the relative tolerance of a limit) and EnumType; '
-    'nested datatypes, Limit parameters, `$` units, Commands and the order of accessibles are covered by the direct '
-    'oracle on the implementation only, not by the Coq model',
+    'the Coq model knows flat datatypes only (FloatRange with integral bounds/values, EnumType).  Container and convenience '
+    'datatypes (TupleOf, ArrayOf, StructOf, LimitsType, Limit parameters, StatusType), `$` units / applyMainUnit, Commands and '
+    'the order of accessibles are generated and DECIDED BY THE DIRECT ORACLE on the implementation: description comparison '
+    '(nested datainfo included) of every class and instance after every op and against the isolated replay, plus a recursive '
+    'identity traversal (members / argument / result) that reports every changeable object shared between an instance and a '
+    'class or another instance; the deep-copy shape of every DataType.copy override is an obligation on the source (fact '
+    'datatype_copy_rebuilds)',
     'class bodies whose definition raises are outside the domain: a generated program ends before the first such definition (it happens when a bare-value override copies an inherited datatype that datatype property overrides made inconsistent)',
     'instances are modelled by value (their Parameter and datatype objects are private copies); that no object is '
     'shared between an instance and anything else is checked on the implementation (identity traversal) in every case',
